@@ -21,6 +21,10 @@ def run(tier):
                 ("session", dict(size=2, moo=1, al=2, maxts=6, maxev=4, cap=40000))]
         free = [("session", dict(size=2, moo=1, al=0, keys=2), 400, 40), ("session", dict(size=3, moo=3, al=0, keys=3), 300, 60),
                 ("session", dict(size=2, moo=0, al=0, keys=1), 200, 40), ("session", dict(size=4, moo=2, al=3, keys=2), 200, 50)]
+    # "block" strategy with a small window output buffer in front of a slowed consumer: many sessions closed by one watermark step are
+    # all delivered (each result is taken well within the BlockTimeout, the whole batch takes longer than it)
+    free += [("session", dict(size=3, moo=1, al=0, manykeys=36, perf={"strategy": "block", "blockms": 500, "winout": 2, "slowsink": 30000}), 3 if tier == "quick" else 12, 0),
+             ("session", dict(size=3, moo=0, al=0, manykeys=12, perf={"strategy": "expand", "winout": 2, "slowsink": 2000}), 2 if tier == "quick" else 12, 0)]
     idle = [("session", dict(size=10, moo=2), 6 if tier == "quick" else 50)]      # IDLETIMEOUT: ties and stragglers keep a source alive
     return win.run_family("C10", tier, plan, free, ASSUME, idle_plan=idle)
 
